@@ -28,11 +28,11 @@ CHECKS = {
  "C06": ("§3 C06", "symbolic: thresholds, signs, leaf boxes, per-leaf presence flag, interval and completion, child valuations for the flags; instantiated: skeletons, presence patterns, value forms", "M4, M5 structural, M6, M10"),
  "C04": ("§3 C04", "symbolic: every 0/1 leaf assignment, AtLeast/AtMost k on named nodes; instantiated: formulas (curated, seeded, exhaustive 2-level), construction route (constructors, from_json, from_cicJE)", "M4, M5 structural, M6; inherits the open known finding negate-mixed (class excluded, witness replayed)"),
  "C05": ("§3 C05", "symbolic: value/sign of the negated node and named descendants, integer-leaf boxes, leaf values; instantiated: skeletons, negate() vs Not()", "M4, M5 structural, M6; open known finding negate-mixed excluded as a class (see known_findings.json)"),
+ "C17": ("§3 C17 / §4", "symbolic: thresholds, explicit signs, integer-leaf boxes, leaf values of the packed model; every entry (<=8), every variable box and the default priority vector of a directly built ge_polyhedron_config; instantiated: skeletons, configurators, fresh vs after queries, which constructor arguments are given. pickle/gzip/base64 run for real on the object graph; select() with the built-in solver only in the plain-interpreter runs", "M1, M4, M5 structural, M6, M8, M11 (pickle transports Python ints unchanged: symbolic integers ride through the real pickle as opaque tokens); thin solver share on the transport itself (equalities between parameter terms), the solver ranges over what the code does around it (state selection, rebuilding through constructors)"),
  "C03": ("§3 C03", "symbolic: thresholds, signs, integer-leaf boxes, leaf values, override presence/value; instantiated: model skeletons, value forms, leaf names",
          "M4 int shadow, M5 structural hash tokens, M6 explicit ids for symbolic thresholds, M10 symbolic dicts; skeleton family and ranges as recorded in evidence"),
 }
 NA = {
- "C17": "pickle/gzip/base64 are C-level byte serialisers: a symbolic proxy cannot pass through them, so no symbolic input is left for a solver to range over; deciding it would mean switching to differential testing (DESIGN.md §4)",
 }
 ALL = ["C%02d" % i for i in range(1, 21)]
 checks = []
